@@ -68,6 +68,12 @@ def run_frame(cfg):
         y = sxl.LInput("y", n)
         X = sxl.LInput("X", n, cols=ncol, is1d=False) if ncol else None
         w = sxl.LInput("w", n) if cfg["w"] else None
+        # each input has its own dtype token: which one a table is allocated with is observable
+        y.dtype = sxl.DType()
+        if X is not None:
+            X.dtype = sxl.DType()
+        if w is not None:
+            w.dtype = sxl.DType()
         old = utils.numpy, base.check_ts_X_y
         utils.numpy = sxl.NumpyProxy(numpy)
         base.check_ts_X_y = lambda model, X, y: None  # dtype/length assertions only (stub)
@@ -81,6 +87,9 @@ def run_frame(cfg):
         ok &= e.prove(z3.And(sx.term(ny.shape[0]) == rows, ny.shape[1] == delay2 - 1) if not isinstance(ny.shape[0], int) else False, "shape/y")
         if not ok:
             return
+        # the lag columns hold values of the series: the feature and target tables are allocated with ITS dtype
+        # (integer or float32 exogenous features must not truncate / round the lags)
+        e.prove(getattr(nX, "dtype", None) is y.dtype and getattr(ny, "dtype", None) is y.dtype, "tables-are-allocated-with-the-series'-dtype", detail=(repr(getattr(nX, "dtype", None)), repr(y.dtype)))
         off = first if cfg["same"] else 0
         inr = z3.And(r.t >= 0, r.t < nrow)
         row = r.t + off
@@ -163,6 +172,11 @@ def replay_frame(cfg, inputs, label):
     y = numpy.arange(n) * 1.0 + 100
     X = (numpy.arange(n * ncol).reshape(n, ncol) * 1.0 + 1000) if ncol else None
     w = (numpy.arange(n) * 1.0 + 7) if cfg["w"] else None
+    if "dtype" in label:
+        # a series with fractional values next to integer-typed exogenous features and weights
+        y = y + 0.25
+        X = X.astype(numpy.int64) if X is not None else None
+        w = w.astype(numpy.int64) if w is not None else None
     try:
         nX, ny, nw = _call(cfg, X, y, w)
     except Exception as e:
@@ -190,7 +204,7 @@ def replay_frame(cfg, inputs, label):
 # ------------------------------------------------------------------ ts_mape (SX)
 
 
-class _NP:
+class _NP(sx.Conversions):
     """numpy proxy for ts_mape: isnan / ma on object arrays"""
 
     def __init__(self):
